@@ -1635,6 +1635,10 @@ class Engine:
         for nm, sh in spec.get("declare", {}).items():
             if nm not in env:
                 env[nm] = fresh_val(nm, sh)
+        for nm, sh in spec.get("shapes", {}).items():
+            # a variable whose shape widens inside the loop (int -> int-or-inf): widen it at loop entry
+            if sh == "xint" and isinstance(env.get(nm), VInt) and env[nm].inf is None:
+                env[nm] = VInt(env[nm].t, inf=z3.BoolVal(False))
         mod = self.modified_names(st.body, env)
         tag_ = f"loop{lid}"
         invs = spec.get("inv", [])
